@@ -48,7 +48,8 @@ CONSTANTS
     CloseArgs,    \* set of CLOSE arguments: -1 = absent, 0 = bare CLOSE, e >= 1 = CLOSE ON e
     ClearArgs,    \* subset of BOOLEAN
     Filters,      \* set of filters [n, a] (see Pass)
-    Order,        \* the phases in the order they are applied: a permutation of <<"open","close","clear","filter">>
+    Order,        \* the phases in the order they are applied: <<"open","close","clear","filter">> as stated (permuted or with
+                  \*   a phase repeated in the non-vacuity configurations)
     CompileMode   \* "stated": as the statement says;  "shipped": OPEN with a bare CLOSE crashes (TypeError), as /repo does
 
 -----------------------------------------------------------------------------
@@ -130,14 +131,20 @@ TxBalanceOK(R, exact) ==
         tot == FoldLeft(LAMBDA acc, p : [acc EXCEPT ![<<p.g, p.wc>>] = Add(@, p.w)], [x \in G \X W |-> Z], S)
     IN \A x \in G \X W : tot[x] = Z
 
+\* the clauses apply in the fixed order OPEN, CLOSE, CLEAR: what OPEN contributes (the opening balances, flag S) precedes the
+\* transactions of the period, what CLOSE contributes (the conversions entry, flag C) follows them, and what CLEAR
+\* contributes (the transfers to Equity, flag T) comes last
+Phase(flag) == CASE flag = "S" -> 1 [] flag = "C" -> 3 [] flag = "T" -> 4 [] OTHER -> 2
+LayoutOK(R) == \A i \in 1..(Len(R) - 1) : Phase(R[i].flag) <= Phase(R[i + 1].flag)
+
 \* the clauses apply before and independently of the filter expression:
 \* RF (rows returned with filter f) are exactly the rows of R whose transaction satisfies f
 FilterOK(R, f, RF) == CoreSeq(RF) = CoreSeq(SelectSeq(R, LAMBDA p : Pass(f, p)))
 
 PeriodReportClauses(kt, LP, c, R, exact) ==
     <<KeepOK(LP, c, R), BalanceSheetOK(kt, LP, c, R), IncomeOK(kt, LP, c, R), EquityOK(kt, LP, c, R),
-      TxBalanceOK(R, exact)>>
-ClauseNames == <<"KeepOK", "BalanceSheetOK", "IncomeOK", "EquityOK", "TxBalanceOK">>
+      TxBalanceOK(R, exact), LayoutOK(R)>>
+ClauseNames == <<"KeepOK", "BalanceSheetOK", "IncomeOK", "EquityOK", "TxBalanceOK", "LayoutOK">>
 
 -----------------------------------------------------------------------------
 (***************************************************************************)
@@ -242,7 +249,7 @@ StepsOf(c, phase) ==
                              ELSE IF c.close = 0 THEN <<"CloseConversions">> ELSE <<>>
       [] phase = "clear"  -> IF c.clear THEN <<"ClearTransfer">> ELSE <<>>
       [] phase = "filter" -> <<"ApplyFilter">>
-Program(c) == StepsOf(c, Order[1]) \o StepsOf(c, Order[2]) \o StepsOf(c, Order[3]) \o StepsOf(c, Order[4])
+Program(c) == FoldLeft(LAMBDA acc, ph : acc \o StepsOf(c, ph), <<>>, Order)
 
 Init ==
     /\ ledger \in Ledgers
@@ -322,6 +329,7 @@ BalanceSheetInv == Done => BalanceSheetOK(KeyTab, LP, cfg, RowsOf(report))
 IncomeInv == Done => IncomeOK(KeyTab, LP, cfg, RowsOf(report))
 EquityInv == Done => EquityOK(KeyTab, LP, cfg, RowsOf(report))
 TxBalanceInv == TxBalanceOK(RowsOf(entries), TRUE)          \* in every intermediate list as well
+LayoutInv == Done => LayoutOK(RowsOf(report)) /\ LayoutOK(RowsOf(entries))
 FilterInv == Done => FilterOK(RowsOf(report), cfg.filter, RowsOf(entries))
 \* compile time: rejected exactly when the CLOSE date precedes the OPEN date; everything else runs to completion
 CompileInv ==
